@@ -168,6 +168,7 @@ void lweKeySwitchTranslate_fromArray(LweSample *result, const LweSample ***ks, c
 static const LweSample *tr_raw = 0;
 static uint32_t tr_atilde = 0;
 static int tr_calls = 0, tr_bad = 0, tr_lastj = -1;
+#if STUB_ON(stub_lweSubTo)
 extern "C" void STUBNAME(lweSubTo)(LweSample *result, const LweSample *sample, const LweParams *params) {
     long idx = (long) (sample - tr_raw);
     if (idx < 0 || idx >= (long) KT * KBASE) { tr_bad = 1; return; }
@@ -178,6 +179,7 @@ extern "C" void STUBNAME(lweSubTo)(LweSample *result, const LweSample *sample, c
     tr_atilde += h << (32 - (j + 1) * KBB);
     tr_calls++;
 }
+#endif
 HARNESS(h_translate_rounding) {
     LweParams *po = new_LweParams(1, 0.0, 1.0);
     LweSample *res = new_LweSample(po);
